@@ -168,9 +168,34 @@ class PathState:
             self.assume(cs[d])
             return d
         feas = []
-        for i in live:
-            if self.feasible(cs[i]):
-                feas.append(i)
+        if len(live) > 6:
+            # many alternatives (a `match` on a key code): ask for a model of "one of those not yet known feasible" and read off which ones it
+            # satisfies - (#feasible + 1) queries instead of one per alternative
+            remaining = list(live)
+            if self.model is not None:
+                try:
+                    hit = [i for i in remaining if z3.is_true(self.model.eval(cs[i], model_completion=True))]
+                    feas.extend(hit)
+                    remaining = [i for i in remaining if i not in hit]
+                except z3.Z3Exception:
+                    pass
+            while remaining:
+                if not self._check(z3.Or([cs[i] for i in remaining])):
+                    break
+                m = self.solver.model()
+                hit = [i for i in remaining if z3.is_true(m.eval(cs[i], model_completion=True))]
+                if not hit:
+                    # model completion could not decide: fall back to one query per alternative
+                    hit = [i for i in remaining if self.feasible(cs[i])]
+                    feas.extend(hit)
+                    break
+                feas.extend(hit)
+                remaining = [i for i in remaining if i not in hit]
+            feas.sort()
+        else:
+            for i in live:
+                if self.feasible(cs[i]):
+                    feas.append(i)
         if not feas:
             raise Unsupported("no feasible alternative at a branch (inconsistent path?)")
         order = feas
